@@ -103,6 +103,7 @@ type Ctx struct {
 	refStruct     map[string]Term // named reference -> its structural (mkref ...) form
 	inQuant       int
 	needQuantHeap bool
+	defBody       map[string]string // define-fun name -> body
 	defNames      map[string]bool // names introduced by define-fun (not usable inside patterns: they expand)
 	quantVars     [][2]string // (name, sort) of the kept quantifiers being evaluated, outermost first
 	quantLoads    [][]Term          // heap reads made while evaluating the body of each open quantifier (pattern candidates)
@@ -116,7 +117,7 @@ const globalBase = 1000
 func NewCtx(w *World, intMode bool) *Ctx {
 	c := &Ctx{W: w, intMode: intMode, strLits: map[string]Term{}, memSort: map[string]string{},
 		memInit: map[string]Term{}, globals: map[*ssa.Global]Term{}, assumed: map[string]bool{},
-		ufDecl: map[string]bool{}, sites: map[string]int{}, depthCap: 8, epochCache: map[string]Term{}, defCache: map[string]string{}, baseArrays: map[string][]baseArr{}, refStruct: map[string]Term{}, storeOf: map[string]storeRec{}, frameRecs: map[string]frameRec{}, boolCache: map[string]bool{}, boolDefs: map[string]string{}, defNames: map[string]bool{}, trigSeen: map[string]bool{}, deadTags: map[string]bool{}, copyRecs: map[string]copyRec{}, mergeOf: map[string][]Term{}, oldRefs: map[string]bool{}, knownConst: map[string]string{}}
+		ufDecl: map[string]bool{}, sites: map[string]int{}, depthCap: 8, epochCache: map[string]Term{}, defCache: map[string]string{}, baseArrays: map[string][]baseArr{}, refStruct: map[string]Term{}, storeOf: map[string]storeRec{}, frameRecs: map[string]frameRec{}, boolCache: map[string]bool{}, boolDefs: map[string]string{}, defNames: map[string]bool{}, defBody: map[string]string{}, trigSeen: map[string]bool{}, deadTags: map[string]bool{}, copyRecs: map[string]copyRec{}, mergeOf: map[string][]Term{}, oldRefs: map[string]bool{}, knownConst: map[string]string{}}
 	if intMode {
 		c.idxSort = SInt
 	} else {
@@ -161,6 +162,7 @@ func (c *Ctx) Def(prefix string, t Term) Term {
 	n := c.fresh(prefix)
 	c.defCache[key] = n
 	c.defNames[n] = true
+	c.defBody[n] = t.S
 	if t.Sort == SRef {
 		if _, _, ok := splitRef(t); ok {
 			c.refStruct[n] = t
@@ -538,9 +540,25 @@ func (c *Ctx) recordKnown(t Term) {
 		case ' ':
 			if depth == 0 {
 				a, b := body[:i], body[i+1:]
+				isNum := func(x string) bool {
+					if x == "" {
+						return false
+					}
+					for _, r := range x {
+						if r < '0' || r > '9' {
+							return false
+						}
+					}
+					return true
+				}
+				a, b = c.expandDefs(a, 0), c.expandDefs(b, 0)
 				if strings.HasPrefix(b, "(_ bv") && !strings.HasPrefix(a, "(_ bv") {
 					c.knownConst[a] = b
 				} else if strings.HasPrefix(a, "(_ bv") && !strings.HasPrefix(b, "(_ bv") {
+					c.knownConst[b] = a
+				} else if isNum(b) && !isNum(a) {
+					c.knownConst[a] = b // mathematical-integer mode
+				} else if isNum(a) && !isNum(b) {
 					c.knownConst[b] = a
 				}
 				return
@@ -549,11 +567,58 @@ func (c *Ctx) recordKnown(t Term) {
 	}
 }
 
+// expandDefs replaces define-fun names by their bodies (for syntactic comparison of terms).
+func (c *Ctx) expandDefs(s string, depth int) string {
+	if depth > 6 {
+		return s
+	}
+	var sb strings.Builder
+	changed := false
+	i := 0
+	for i < len(s) {
+		ch := s[i]
+		if ch == '(' || ch == ')' || ch == ' ' {
+			sb.WriteByte(ch)
+			i++
+			continue
+		}
+		j := i
+		for j < len(s) && s[j] != '(' && s[j] != ')' && s[j] != ' ' {
+			j++
+		}
+		tok := s[i:j]
+		if body, ok := c.defBody[tok]; ok {
+			sb.WriteString(body)
+			changed = true
+		} else {
+			sb.WriteString(tok)
+		}
+		i = j
+	}
+	if !changed {
+		return s
+	}
+	return c.expandDefs(sb.String(), depth+1)
+}
+
 func (c *Ctx) known(t Term) Term {
 	if t.C != nil {
 		return t
 	}
-	if lit, ok := c.knownConst[t.S]; ok {
+	lit, ok := c.knownConst[t.S]
+	if !ok {
+		// the fact may be stated on the expanded form of a term built from definitions
+		if ex := c.expandDefs(t.S, 0); ex != t.S {
+			lit, ok = c.knownConst[ex]
+		}
+	}
+	if ok {
+		if t.Sort == SInt {
+			if n, ok := new(big.Int).SetString(lit, 10); ok {
+				return IntLit(n)
+			}
+			return t
+		}
 		f := strings.Fields(strings.Trim(lit, "()"))
 		if len(f) == 3 {
 			n, ok1 := new(big.Int).SetString(strings.TrimPrefix(f[1], "bv"), 10)
